@@ -27,6 +27,7 @@ struct shared {
 	long pending;			/* queued + in flight */
 	long max_top;
 	int overflow_stack, overflow_dev, trunc_rec;
+	unsigned long pruned;
 	unsigned long execs, steps_total, tree_nodes, max_steps, nontrivial, switches, faults;
 	unsigned long by_status[8];
 	unsigned long witness[NWIT];
@@ -44,6 +45,7 @@ struct shared {
 	struct work stack[STACKCAP];
 };
 
+struct seen_slot *vrt_seen_tab;
 static struct shared *S;
 static struct vrt_scenario *scen;
 static int nworkers = 4;
@@ -170,6 +172,7 @@ static void worker(int wid, struct result *r, struct result *r2)
 			unlock();
 			return;
 		}
+		r->noprune = 0;
 		st = run_one(&w, r, 0);
 		if (st == ST_INTERNAL) {
 			lock();
@@ -182,7 +185,10 @@ static void worker(int wid, struct result *r, struct result *r2)
 		}
 		if (is_violation(st)) {
 			/* replay before report: must reproduce identically */
-			int st2 = run_one(&w, r2, 0);
+			int st2;
+
+			r2->noprune = 1;
+			st2 = run_one(&w, r2, 0);
 
 			if (st2 != st || r2->steps != r->steps || r2->sched_hash != r->sched_hash) {
 				lock();
@@ -199,6 +205,7 @@ static void worker(int wid, struct result *r, struct result *r2)
 		}
 		lock();
 		S->execs++;
+		S->pruned += r->pruned ? 1 : 0;
 		S->steps_total += r->steps;
 		S->tree_nodes += r->steps - r->first_free_step;
 		if (r->steps > S->max_steps)
@@ -487,6 +494,7 @@ static int do_replay(const char *path, int verbose)
 	S->cfg.livelock_window = S->cfg.horizon / 4 > 1500 ? S->cfg.horizon / 4 : 1500;
 	S->cfg.verbose = verbose;
 	r = mmap(NULL, sizeof(*r), PROT_READ | PROT_WRITE, MAP_SHARED | MAP_ANONYMOUS, -1, 0);
+	r->noprune = 1;
 	st = run_one(&w, r, 1);
 	printf("REPLAY scenario=%s status=%s steps=%lu expected=%s/%lu\n", scen->name, stname(st), r->steps,
 	       expect, esteps);
@@ -515,6 +523,10 @@ int main(int argc, char **argv)
 		perror("mmap shared");
 		return 2;
 	}
+	vrt_seen_tab = mmap(NULL, SEEN_SLOTS * sizeof(struct seen_slot), PROT_READ | PROT_WRITE,
+			   MAP_SHARED | MAP_ANONYMOUS | MAP_NORESERVE, -1, 0);
+	if (vrt_seen_tab == MAP_FAILED)
+		vrt_seen_tab = NULL;
 	S->cfg.horizon = 20000;
 	S->cfg.budget[C_P] = 2;
 	S->cfg.budget[C_Y] = 2;
@@ -585,6 +597,10 @@ int main(int argc, char **argv)
 		S->stop = 0;
 		S->execs = S->steps_total = S->tree_nodes = S->max_steps = S->nontrivial = 0;
 		S->switches = S->faults = 0;
+		S->pruned = 0;
+		if (vrt_seen_tab)
+			if (madvise(vrt_seen_tab, SEEN_SLOTS * sizeof(struct seen_slot), MADV_REMOVE))
+				memset(vrt_seen_tab, 0, SEEN_SLOTS * sizeof(struct seen_slot));
 		S->max_top = 0;
 		memset(S->by_status, 0, sizeof(S->by_status));
 		memset(S->witness, 0, sizeof(S->witness));
@@ -663,6 +679,7 @@ int main(int argc, char **argv)
 			S->nontrivial, S->distinct_outcomes);
 		fprintf(f, " \"switches\": %lu,\n \"faults_injected\": %lu,\n \"promoted_pcs\": %d,\n", S->switches, S->faults,
 			S->cfg.npromo);
+		fprintf(f, " \"pruned\": %lu,\n", S->pruned);
 		fprintf(f, " \"max_queue\": %ld,\n \"exhaustive\": %s,\n \"deadline_hit\": %s,\n", S->max_top,
 			exhaustive ? "true" : "false", S->stop == 2 ? "true" : "false");
 		fprintf(f, " \"overflow\": {\"stack\": %d, \"deviations\": %d, \"trace\": %d},\n", S->overflow_stack,
